@@ -9,6 +9,8 @@
      output: "OK" or "REJ <k>" (index of the first impossible event) followed by the model state
              reached: stuck= leak= err= rc= du= worker= stops= app= mtx= pending= qlen= inflight= log= accepted= obs=
    mode "oracle": "<posted ids,> | <delivered ids,> | <stopped 0/1>"  ->  1/0  (prop_c04_b)
+   mode "counter": "<pending>" -> "bits=<src_counter_bits> code_test=<0/1> model_test=<0/1>": the loop test `pending > 0` of the drain
+             loop evaluated on the translated width of m_pendingCount (signed wrap-around) and as the model evaluates it
    mode "run": "<app0> <worker0> <k> <action> ..." actions p<m> t d d0 s<i> c<i> w<i> g m (APost ATake ADone true, ADone false
              AResetStart AResetCheck AResetWake AAppDie AMove) -> final state *)
 open Shutdown_model
@@ -46,6 +48,11 @@ let () =
   try while true do
     let line = input_line stdin in
     (try
+      if mode = "counter" then begin
+        let n = int_of_string (String.trim line) in
+        let (c, m) = src_drain_test (nat_of_int n) in
+        print_endline (Printf.sprintf "bits=%d code_test=%d model_test=%d" (int_of_nat src_counter_bits) (b2 c) (b2 m))
+      end else
       if mode = "oracle" then begin
         match String.split_on_char '|' line with
         | [p; d; st] -> print_endline (if prop_c04_b (ids p) (ids d) (String.trim st = "1") then "1" else "0")
